@@ -250,12 +250,12 @@ def run_queue_part(rep, tier, rng, bdir, replay=None):
 
 def run(tier, seed, replay=None):
     rep = Report("C18", tier, seed)
-    ok, msg = gen_consts()
+    ok, msg = gen_consts("c18")
     cb = coq_build("Properties_C18")
     gate = coq_gate()
     rep.proof_cov(cb, "make -C coq Props/Properties_C18.vo && coqc Props/Properties_C18.v (Print Assumptions) ; grep gate")
     proof_ok = ok and cb["ok"] and not gate
-    model_build()
+    model_build("queue")
     bdir, err = nng_build("asan")
     if bdir is None:
         p = rep.replay_file("build_failed.txt", err)
